@@ -2,7 +2,7 @@
     conclusions say something (a bond really changes, a charge really moves, the additive branch is really taken, no
     ITS is really produced).  Intermediate values are top-level Definitions (no destructuring lets in statements). *)
 From Coq Require Import List NArith ZArith Bool Lia.
-From SK Require Import lib.Tok lib.LGraph model.C03_Model proof.C03_Proof proof.C03_Glue proof.C03_Backward proof.C03_ExplicitH proof.C03_ExplicitShape proof.C03_ExplicitTotal proof.C03_Expand proof.C03_Default proof.C03_Iso proof.C03_Skeleton proof.C03_StripCounts proof.C03_Wiring proof.C03_WiringCount proof.C03_PairIds.
+From SK Require Import lib.Tok lib.LGraph model.C03_Model proof.C03_Proof proof.C03_Glue proof.C03_Backward proof.C03_ExplicitH proof.C03_ExplicitShape proof.C03_ExplicitTotal proof.C03_Expand proof.C03_Default proof.C03_Iso proof.C03_Skeleton proof.C03_StripCounts proof.C03_Wiring proof.C03_WiringCount proof.C03_PairIds proof.C03_StripExact proof.C03_StripCor.
 Import ListNotations.
 Local Open Scope Z_scope.
 
@@ -248,3 +248,20 @@ Proof.
   exists 1%N, (match label ex_T_s 2%N with Some a => a | None => H_inode end), (match label ex_T_s 3%N with Some a => a | None => H_inode end).
   vm_compute. repeat split; auto.
 Qed.
+
+(** the exact characterisation on ex_tpl_x: hydrogen 2 has a heavy neighbour on both sides (O on the left, N on the right) *)
+Example ex_synrule_default_exact :
+  forallb (fun p => N.eqb (a_el (iH (snd p))) (a_el (iG (snd p)))) (gnodes ex_tpl_x) = true /\
+  is_H_i ex_tpl_x 2%N = true /\ heavy_nbr (side0 iG eG ex_tpl_x) 2%N = true /\ heavy_nbr (side0 iH eH ex_tpl_x) 2%N = true /\
+  heavy_nbr (side0 iG eG ex_tpl_x) 1%N = false /\ node_ids ex_rc_s = [1%N; 3%N].
+Proof. vm_compute. repeat split; reflexivity. Qed.
+
+Example ex_synrule_default_total : exists rc l r, synrule ex_tpl_x true = Some (rc, l, r).
+Proof.
+  apply synrule_default_total; [reflexivity|]. intros k a I. simpl in I. destruct I as [I|[I|[I|[]]]]; inversion I; subst; reflexivity.
+Qed.
+Example ex_synrule_default_pointwise :
+  simple_edgesb (gedges ex_tpl_x) = true /\ sum_cnt (gedges (side0 iG eG ex_tpl_x)) [2%N] 1%N = 1 /\
+  sum_cnt (gedges (side0 iH eH ex_tpl_x)) [2%N] 1%N = 0 /\ sum_cnt (gedges (side0 iH eH ex_tpl_x)) [2%N] 3%N = 1 /\
+  option_map (fun a => (a_hc (iG a), a_hc (iH a))) (label ex_rc_s 1%N) = Some (1, 0) /\ has_XH ex_l_s = false /\ h_to_implicit ex_l_s = ex_l_s.
+Proof. vm_compute. repeat split; reflexivity. Qed.
